@@ -57,7 +57,11 @@ Leaves ==
         Dv(<<1979, 5, 27>>, <<7, 32, 0, 0>>, [t |-> "N", m |-> 0]), Dv(<<1979, 5, 27>>, <<>>, [t |-> "N", m |-> 0]), Dv(<<>>, <<7, 32, 0, 500000000>>, [t |-> "N", m |-> 0]),
         \* all nine fraction digits significant, the smallest and the largest fraction
         Dv(<<>>, <<23, 59, 59, 999999999>>, [t |-> "N", m |-> 0]), Dv(<<1979, 5, 27>>, <<7, 32, 0, 1>>, [t |-> "Z", m |-> 0]),
-        Dv(<<1979, 5, 27>>, <<7, 32, 0, 123456789>>, [t |-> "O", m |-> 330]), Dv(<<1979, 5, 27>>, <<7, 32, 0, 120000000>>, [t |-> "N", m |-> 0])}
+        Dv(<<1979, 5, 27>>, <<7, 32, 0, 123456789>>, [t |-> "O", m |-> 330]), Dv(<<1979, 5, 27>>, <<7, 32, 0, 120000000>>, [t |-> "N", m |-> 0]),
+        \* a leap second, a numeric offset of zero, the extreme offsets
+        Dv(<<2016, 12, 31>>, <<23, 59, 60, 0>>, [t |-> "Z", m |-> 0]), Dv(<<>>, <<23, 59, 60, 500000000>>, [t |-> "N", m |-> 0]),
+        Dv(<<1987, 7, 5>>, <<17, 45, 56, 0>>, [t |-> "O", m |-> 0]), Dv(<<1987, 7, 5>>, <<17, 45, 56, 0>>, [t |-> "O", m |-> 1439]),
+        Dv(<<1987, 7, 5>>, <<17, 45, 56, 0>>, [t |-> "O", m |-> 0 - 1439])}
 KeyPool == {<<>>} \cup {<<c>> : c \in Chs} \cup {<<c>> : c \in (0..127) \ {98, 99}} \cup {<<a, b>> : a, b \in {34, 39, 92, 10, 127, 97, 233, 32, 35}} \cup {<<97, 46, 98>>, <<97, 32, 98>>, <<49>>, <<49, 46, 53>>, <<116, 114, 117, 101>>, <<49, 57, 55, 57, 45, 48, 53, 45, 50, 55>>,
                                                   <<45>>, <<95>>, <<34, 39>>, <<39, 39, 39>>, <<105, 110, 102>>}
 
